@@ -360,7 +360,8 @@ def main(chk):
         'real coroutine incl. read_message) over reply streams of k messages with symbolic codes and bodies, from arbitrary connection '
         'flags and buffer fill levels on both sides of the 8196-byte flush threshold, alone and driven in the client loop until '
         '!data_available; Server::send with write faults at any point. Every path is compared with a reference written from the '
-        'protocol documentation; counterexamples are replayed against the compiled Server over a loopback socket.')
+        'protocol documentation; counterexamples are replayed against the compiled Server over a loopback socket.  Outside the client loop: a health check that timed out '
+        '(its reply still to come) takes its connection out of the pool (ConnectionPool::get from MIR) -- otherwise every later reply on it is relayed one request late.')
     chk.assumptions += [
         'Tokio read_u8/read_i32/read_exact/write_all/flush contracts (all-or-error, in order); TCP segmentation and BufStream internals trusted',
         'server sends well-formed messages (ReadyForQuery has a status byte); ParameterStatus handling is C12',
